@@ -167,8 +167,9 @@ type BrokerInject struct {
 type BrokerFault struct {
 	AtMs    int64  `json:"at_ms"`
 	Session string `json:"session,omitempty"` // "" = all
-	Kind    string `json:"kind"`              // "fin" | "rst" | "stall" | "raw"
+	Kind    string `json:"kind"`              // "fin" | "rst" | "stall" | "raw" | "backpressure"
 	DurMs   int64  `json:"dur_ms,omitempty"`
+	Cap     int    `json:"cap,omitempty"` // kind backpressure: the broker stops reading; the connection takes this many more bytes, then the gateway's writes block
 	Raw     []byte `json:"raw,omitempty"` // kind raw: bytes sent to the gateway verbatim
 }
 
